@@ -1,4 +1,4 @@
 From Coq Require Import Extraction ExtrOcamlBasic QArith.
 From BCT Require Import Model.Rewire Model.RewireBin.
 Extraction Language OCaml.
-Extraction "../ocaml/gen/c01_model.ml" run_rewire run_partial run_rbu_swap run_rbu DInt Qred Z.add.
+Extraction "../ocaml/gen/c01_model.ml" run_rewire run_partial run_precheck run_rbu_swap run_rbu DInt Qred Z.add.
